@@ -81,6 +81,11 @@ NOTES = [
     'repro: notes/findings/c15_rfc4716_comment_line_over_72.py',
     'observation, fixed in /repo (bf20790): RSAKey.decode_ssh_private divided by zero for p or q == 1 '
     '(notes/findings/c15_obs_rsa_p1_zerodivision.py); the contract states PacketDecodeError iff p < 2 or q < 2',
+    'observation (seeder, not under contract): an EC private key PEM without the optional [1] publicKey field imports '
+    'with an empty public point - crypto/ec.py ECDSAPrivateKey.construct stores b\'\' instead of deriving the point '
+    '(ecdsa.decode_pkcs1_private / decode_pkcs8_private pass public_key = b\'\')',
+    '_pbkdf1 is stated for keys of at most two digests (all registered PKCS#1 ciphers); beyond that the recursion '
+    'prepends every earlier digest (D3 = H(D2 || D1 || pass || salt)), which is not EVP_BytesToKey - unreachable today',
     'helper-level behaviour, not a property clause: _decode_openssh_private / _decode_pkcs1_* decode file supplied names '
     'as ASCII in error messages (UnicodeDecodeError, a ValueError); import_private_key / import_public_key (under '
     'contract) map every ValueError to KeyImportError',
@@ -2866,6 +2871,86 @@ def _ec_private_value_spec(bits):
 
 
 ec_private_value_specs = [_ec_private_value_spec(b) for b in (256, 384, 521)]      # curves registered in crypto/ec.py
+
+
+# ====================================================================== pbe._pbkdf1 (EVP_BytesToKey recurrence)
+# D_1 = H^count(pass || salt), D_i = H^count(D_{i-1} || pass || salt), key = first n bytes of D_1 || D_2 || ...
+# (PKCS#5 PBKDF1 for one block; OpenSSL's extension for longer keys, used by RFC 1423 style PEM encryption).
+# Spec functions: Hd = the hash, Hiter(i, x) = Hd applied i times.  Stated for n <= 2 digests (what the registered
+# PKCS#1 ciphers need: 32 bytes from MD5); the function's own contract is used for the recursive call.
+Hd = z3.Function('Hd', BytesS, BytesS)
+Hiter = z3.Function('Hiter', IntS, BytesS, BytesS)
+DLEN = z3.Int('digest_size')
+
+
+def _kdf_instances(count, xs, idxs=()):
+    """definitional instances of Hiter / the digest length for the terms a path mentions (no fact about the code)"""
+    out = []
+    for x in xs:
+        out += [Hiter(z3.IntVal(0), x) == x,
+                z3.Implies(count >= 1, Hiter(count, x) == Hd(Hiter(count - 1, x))),
+                z3.Length(Hd(Hiter(count - 1, x))) == DLEN]
+        for i in idxs:
+            out += [z3.Implies(i >= 0, Hiter(i + 1, x) == Hd(Hiter(i, x))), z3.Length(Hd(Hiter(i, x))) == DLEN]
+    return out
+
+
+def _kdf_terms(c):
+    start = z3.Concat(c.arg('passphrase'), c.arg('salt'))
+    d1 = Hiter(c.arg('count'), start)
+    return [start, z3.Concat(d1, c.arg('passphrase'), c.arg('salt')), z3.Concat(z3.Concat(d1, c.arg('passphrase')), c.arg('salt'))]
+
+
+def _evp(pw, salt, count, n):
+    d1 = Hiter(count, z3.Concat(pw, salt))
+    d2 = Hiter(count, z3.Concat(d1, pw, salt))
+    return z3.Extract(z3.Concat(d1, d2), 0, n)
+
+
+def kdf_hash_ctor(cx):
+    o = cx.fresh('obj:Hash', 'hash')
+    cx.st.set_field(o, 'ghost_data', cx.args[0])
+    return [Out(ret=o)]
+
+
+def kdf_hash_digest(cx):
+    d = Hd(cx.ex.get_field(cx.st, cx.recv, 'ghost_data').z)
+    return [Out(ret=VBytes(d))]
+
+
+def kdf_recursive_stub(cx):
+    """the function's own contract for the remaining bytes (well-founded: fewer bytes are requested)"""
+    a = cx.args
+    e = cx.ex.entry_state.env
+    cx.require('recursion-asks-for-fewer-bytes-same-salt-and-count',
+               z3.And(a[4].z >= 0, a[4].z < e['key_size'].z, a[4].z <= 2 * DLEN, a[3].z == e['count'].z))
+    t = z3.Const(fresh_name('kdf_rest'), BytesS)
+    return [Out(ret=VBytes(t), assume=[t == _evp(a[1].z, a[2].z, a[3].z, a[4].z)])]
+
+
+for _f in (kdf_hash_ctor, kdf_hash_digest, kdf_recursive_stub):
+    _f.modifies = ()
+
+
+def _kdf_setup(ex, st):
+    st.heap['__cut__'] = True             # abstract hash: nothing to replay natively (bounded stand-in does that)
+
+
+pbkdf1 = Spec(
+    'C15', 'pbe', '_pbkdf1',
+    params=dict(hash_alg='any', passphrase='bytes', salt='bytes', count='int', key_size='int'),
+    classes={'Hash': {'ghost_data': 'bytes'}}, setup=_kdf_setup,
+    stubs={'hash_alg': kdf_hash_ctor, 'Hash.digest': kdf_hash_digest, '_pbkdf1': kdf_recursive_stub},
+    loops={1: LoopSpec(invariant=lambda c: z3.And(
+        z3.BoolVal('i' in c.extra),
+        c.local('key') == Hiter(c.extra.get('i', z3.IntVal(0)), z3.Concat(c.arg('passphrase'), c.arg('salt')))),
+        lemmas=lambda c: _kdf_instances(c.arg('count'), _kdf_terms(c)[:1],
+                                        [v for k, v in c.extra.items() if k in ('i', 'i0')]))},
+    lemmas=lambda c: _kdf_instances(c.arg('count'), _kdf_terms(c)),
+    requires=lambda c: z3.And(c.arg('count') >= 1, DLEN >= 1, c.arg('key_size') >= 0, c.arg('key_size') <= 2 * DLEN),
+    ensures=[('evp-bytestokey-chain-D1-D2', lambda c: c.result == _evp(c.arg('passphrase'), c.arg('salt'), c.arg('count'),
+                                                                       c.arg('key_size')))],
+    raises={}, returns='bytes')
 
 
 # structured-input contracts: bounded work (normal runs need < 120 solver checks each)
